@@ -256,3 +256,36 @@ func VH_C05_predone() {
 	vAssert(m.calls == 0, "no-callback-when-context-already-done")
 	vAssert(err != nil && errors.Is(err, m.ctx.Err()), "pre-cancelled-error-matches-ctx-error")
 }
+
+// a batch node is a node of the flow like any other: it is not started once the context has been
+// cancelled in (or right after) the node before it
+func VH_C05_batchSuccessor() {
+	vUnwind(6)
+	m := &c05Mon{ctx: vNewRunCtx("run")}
+	a := c05NewProbe(m, true)
+	b := NewBatchNode().
+		WithBatchConcurrency(vChoice("concurrency", 2)).
+		WithPrepFunc(func(ctx context.Context, s *SharedStore) ([]Result, error) {
+			vAssert(!m.cancelled, "no-node-started-after-cancellation")
+			m.calls++
+			m.lastEnds = false
+			return []Result{NewResult(1)}, nil
+		}).
+		WithExecFunc(func(ctx context.Context, it Result) (Result, error) { return it, nil }).
+		WithPostFunc(func(ctx context.Context, s *SharedStore, items, results []Result) (Action, error) {
+			m.lastEnds = true
+			return "done", nil
+		})
+	var flow *Flow
+	if vNondet[bool]("nested") {
+		inner := NewFlow(a.node)
+		flow = NewFlow(inner)
+		flow.Connect(inner, "next", b)
+	} else {
+		flow = NewFlow(a.node)
+		flow.Connect(a.node, "next", b)
+	}
+	err := flow.Run(m.ctx, NewSharedStore())
+	vCover("batch-successor")
+	m.finish(err)
+}
